@@ -73,7 +73,13 @@ pub struct SimDisk {
     pub fired: BTreeMap<&'static str, u32>,
     pub reads: u32,
     pub writes: u32,
+    /// logical clock for code that loops over the file system: when more than this many reads
+    /// happen since the last `reset_read_clock`, the read panics with `READ_BUDGET_MARKER`
+    pub read_budget: Option<u32>,
+    pub reads_since_reset: u32,
 }
+
+pub const READ_BUDGET_MARKER: &str = "VERIF-READ-BUDGET";
 
 pub fn normalize(p: &Path) -> PathBuf {
     // relative paths resolve against the simulated process's working directory
@@ -162,9 +168,21 @@ impl SimDisk {
         Some(kind)
     }
 
+    pub fn reset_read_clock(&mut self) {
+        self.reads_since_reset = 0;
+    }
+
     pub fn read(&mut self, path: &Path) -> io::Result<Vec<u8>> {
         let p = normalize(path);
         self.reads += 1;
+        self.reads_since_reset += 1;
+        if let Some(b) = self.read_budget {
+            if self.reads_since_reset > b {
+                // keep the log bounded, then stop the caller
+                self.log.truncate(64);
+                panic!("{}: {} file reads by one operation (last: {})", READ_BUDGET_MARKER, self.reads_since_reset, p.display());
+            }
+        }
         let count = {
             let c = self.read_counts.entry(p.clone()).or_insert(0);
             *c += 1;
